@@ -7,6 +7,8 @@ import ElfiVerif.Drive.C04
 import ElfiVerif.Drive.C18
 import ElfiVerif.Drive.C09
 import ElfiVerif.Drive.C19
+import ElfiVerif.Drive.C14
+import ElfiVerif.Drive.C03
 
 /-!
 Line-protocol driver: one JSON request per line on stdin (`{"op": "<Cxx.name>", …}`), one JSON answer
@@ -20,7 +22,8 @@ def allHandlers : List (String × H) :=
   ElfiVerif.Drive.C01.handlers ++ ElfiVerif.Drive.C12.handlers ++
   ElfiVerif.Drive.C06.handlers ++ ElfiVerif.Drive.C04.handlers ++
   ElfiVerif.Drive.C18.handlers ++ ElfiVerif.Drive.C09.handlers ++
-  ElfiVerif.Drive.C19.handlers
+  ElfiVerif.Drive.C19.handlers ++ ElfiVerif.Drive.C14.handlers ++
+  ElfiVerif.Drive.C03.handlers
 
 def handleLine (line : String) : String :=
   match Json.parse line with
